@@ -16,6 +16,8 @@ interpreted, output collected) is parsed by the checker and evaluated per order 
                 leaves the printed merged condition selects merged.true/false == the successor the original two branches
                 select AND evaluates the same leaf conditions in the same order (Java short-circuit semantics);
                 merged successors are live nodes; no merge when the second node has another entry.
+ node-map       after the pass(es) every value of the caller's node_map is a live node and every merged-away node is mapped
+                to the live block that holds its condition (two- and three-node chains, both merge orders).
  neg-contract   merged.neg() complements the printed condition on every order type (De Morgan through
                 Condition.neg / CONDS), so neg()+swap of true/false preserves routing.
  chains-3       three-node chains (the third test optionally reachable from both others), merged by one whole pass
@@ -230,6 +232,8 @@ class World:
         self.orig = {}         # leaf name -> (true node, false node)
         self.nodes = {}
         self.pass_error = None
+        self.node_map = {}   # the caller's node_map / idom, kept across passes as the decompiler does
+        self.idom = {}
 
     # -- construction through the real constructors
     def leaf(self, name, op):
@@ -269,9 +273,10 @@ class World:
         """-> nodes of the graph that did not exist before the pass"""
         it = self.it
         before = self.live()
-        idom = {n: None for n in before}
+        for n in before:
+            self.idom.setdefault(n, None)
         try:
-            it.call(it.closure_of(anchors.scs), [self.graph, idom, {}])
+            it.call(it.closure_of(anchors.scs), [self.graph, self.idom, self.node_map])
         except PyRaise as e:
             # a crash after a merge is judged on the merged node it left behind (e.g. a successor that was never set);
             # without such positive evidence it is an analysis error, not a verdict
@@ -490,6 +495,33 @@ def _check_merged(sink, w, M, chain, inst, func, rule, describe):
     return bad is None, text
 
 
+def _check_node_map(sink, w, inst, func, describe):
+    """after the pass(es): every value of node_map is a node of the graph, and every original node that was merged away is
+    mapped to the live node that now contains its condition"""
+    live = w.live()
+    bad = None
+    for k, v in w.node_map.items():
+        if not any(v is n for n in live):
+            bad = "node_map[%s] = %s, which is no longer a node of the graph" % (_name(k), _name(v))
+            break
+    if bad is None:
+        for name in w.orig:
+            leaf = w.nodes[name]
+            if any(leaf is n for n in live):
+                continue
+            tgt = w.node_map.get(leaf)
+            ins = list(w.it.iterate(w.it.call(w.it.getattr(leaf, "get_ins"), [])))
+            inside = isinstance(tgt, Obj) and any(tgt is n for n in live) and all(
+                any(i is j for j in w.it.iterate(w.it.call(w.it.getattr(tgt, "get_ins"), []))) for i in ins)
+            if not inside:
+                bad = "%s was merged away but node_map maps it to %s, not to the live block holding its condition" % (name, _name(tgt))
+                break
+    sink.count("node_map_checks")
+    sink.check("node-map", inst, bad is None, func, bad or "node_map consistent",
+               "after merging %s: %s (later passes resolve follow / latch / loop nodes through node_map)" % (describe, bad),
+               detail="every node_map value is live; merged-away nodes map to the block that holds them")
+
+
 def _abstract(text, w):
     """operator-independent rendering of a printed condition (stable construct key)"""
     return re.sub(r"\s+", " ", text)
@@ -519,6 +551,7 @@ def check_two_nodes(sink, repo, anchors):
         w.settle(ok)
         if not ok:
             continue
+        _check_node_map(sink, w, "config %s" % shape, f, shape)
         if cfg[4]:
             # the second node had another predecessor: control entering there never evaluated the first condition
             expr = parse_cond(text)
@@ -621,6 +654,8 @@ def check_three_nodes(sink, repo, anchors, full):
             elif not ok_m:
                 ok = False
         w.settle(ok)
+        if merged and ok:
+            _check_node_map(sink, w, "chain %s" % desc, f, desc)
         if second is None:
             continue
         sink.count("merges3")
@@ -912,6 +947,7 @@ def run(ctx):
     ctx.floor("conds_rows", 6)
     ctx.floor("neg_methods", 2)
     ctx.floor("merge_shapes", 4)
+    ctx.floor("node_map_checks", 100)
     ctx.floor("configs2", 224)
     ctx.floor("merges2", 8)
     if not ctx.counts.get("dependent_skipped"):
